@@ -1,5 +1,688 @@
+//! C07 — searches terminate; limit errors only when the limit is really exceeded.
+//!
+//! System under simulation: one `vm::run` behind the public search API. Faults: the two limit
+//! aborts, landing at every possible backtrack index / branch-stack depth (enumerated per case).
+//! Logical clock: VM instructions and backtracks counted by the hooks, independently of the VM.
+
+use crate::c20::minimise_ast;
 use crate::common::*;
-use serde_json::Value;
-pub fn run(_opts: &Opts) -> i32 { 2 }
-pub fn replay(_case: &Value) -> Option<(String, String)> { None }
-pub fn digest(_seed: u64, _n: u64, _workers: usize) -> Vec<u64> { Vec::new() }
+use crate::gen::{self, GenCfg, Node};
+use crate::rng::{derive, Fnv, Rng};
+use crate::shadow::{Shadow, ABORT_PAYLOAD};
+use fancy_regex::verif::{self, EndReason, LimitOverride, RunStats};
+use fancy_regex::{Regex, RegexBuilder};
+use serde_json::{json, Value};
+use std::collections::HashSet;
+
+pub const PROP: &str = "C07";
+const DEFAULT_BACKTRACK_LIMIT: usize = 1_000_000;
+
+#[derive(Clone, Copy, Debug, PartialEq, Eq)]
+pub enum Api {
+    Captures,
+    Find,
+    IsMatch,
+}
+
+impl Api {
+    fn name(self) -> &'static str {
+        match self {
+            Api::Captures => "captures_from_pos",
+            Api::Find => "find_from_pos",
+            Api::IsMatch => "is_match",
+        }
+    }
+    fn parse(s: &str) -> Option<Api> {
+        Some(match s {
+            "captures_from_pos" => Api::Captures,
+            "find_from_pos" => Api::Find,
+            "is_match" => Api::IsMatch,
+            _ => return None,
+        })
+    }
+}
+
+#[derive(Clone, Debug, PartialEq, Eq)]
+pub enum Fault {
+    /// backtrack limit k through the per-run override hook
+    Ble(usize),
+    /// branch-stack capacity d through the per-run override hook
+    So(usize),
+    /// backtrack limit k through RegexBuilder::backtrack_limit (a fresh Regex is built)
+    Builder(usize),
+}
+
+impl Fault {
+    fn to_json(&self) -> Value {
+        match self {
+            Fault::Ble(k) => json!(["ble", k]),
+            Fault::So(d) => json!(["so", d]),
+            Fault::Builder(k) => json!(["builder", k]),
+        }
+    }
+    fn from_json(v: &Value) -> Option<Fault> {
+        let a = v.as_array()?;
+        let n = a.get(1)?.as_u64()? as usize;
+        Some(match a.first()?.as_str()? {
+            "ble" => Fault::Ble(n),
+            "so" => Fault::So(n),
+            "builder" => Fault::Builder(n),
+            _ => return None,
+        })
+    }
+}
+
+#[derive(Clone, Debug)]
+pub struct Case {
+    pub pattern: String,
+    pub text: String,
+    pub pos: usize,
+    pub api: Api,
+}
+
+impl Case {
+    fn to_json(&self, fault: &Option<Fault>) -> Value {
+        json!({
+            "kind": "c07",
+            "pattern": self.pattern,
+            "text": self.text,
+            "pos": self.pos,
+            "api": self.api.name(),
+            "fault": fault.as_ref().map(|f| f.to_json()),
+        })
+    }
+}
+
+type Res = Option<Groups>;
+
+fn call(re: &Regex, case: &Case) -> Outcome<Res> {
+    match case.api {
+        Api::Captures => guarded(|| re.captures_from_pos(&case.text, case.pos).map(|c| c.map(|c| groups_of(&c)))),
+        Api::Find => guarded(|| {
+            re.find_from_pos(&case.text, case.pos)
+                .map(|m| m.map(|m| vec![Some((m.start(), m.end()))]))
+        }),
+        Api::IsMatch => guarded(|| re.is_match(&case.text).map(|b| if b { Some(Vec::new()) } else { None })),
+    }
+}
+
+/// One observed execution: the value and the hook's statistics for the (single) vm::run.
+struct Exec {
+    out: Outcome<Res>,
+    stats: Option<RunStats>,
+    progress_violation: Option<(String, String)>,
+}
+
+fn exec(re: &Regex, case: &Case, lim: LimitOverride, monitor: bool) -> Exec {
+    verif::reset_run_ordinal();
+    verif::record_run_stats(true);
+    verif::set_fault_plan(vec![(0, lim)]);
+    let res = if monitor {
+        let (shadow, res) = Shadow::new(false, true);
+        verif::set_observer(Some(Box::new(shadow)));
+        Some(res)
+    } else {
+        None
+    };
+    let out = call(re, case);
+    verif::set_observer(None);
+    verif::set_fault_plan(Vec::new());
+    let stats = verif::take_run_stats();
+    verif::record_run_stats(false);
+    let progress_violation = res.and_then(|r| r.borrow().found.clone());
+    Exec {
+        out,
+        stats: stats.first().copied(),
+        progress_violation,
+    }
+}
+
+#[derive(Default, Clone, Debug)]
+pub struct CaseStats {
+    pub runs: u64,
+    pub insns: u64,
+    pub backtracks: u64,
+    pub ble_configured: u64,
+    pub ble_fired: u64,
+    pub so_configured: u64,
+    pub so_fired: u64,
+    pub builder_configured: u64,
+    pub builder_fired: u64,
+    pub threshold_crossed: u64,
+    pub end_match: u64,
+    pub end_nomatch: u64,
+    pub end_ble: u64,
+    pub end_so: u64,
+    pub panicked: u64,
+    pub heavy_default_limit_hit: u64,
+    pub epsilon_guard_fired: u64,
+    pub nontrivial: bool,
+    pub digest: u64,
+}
+
+pub struct Found {
+    pub class: String,
+    pub detail: String,
+    pub fault: Option<Fault>,
+}
+
+fn found(class: &str, detail: String, fault: Option<Fault>) -> Option<Found> {
+    Some(Found {
+        class: class.to_string(),
+        detail,
+        fault,
+    })
+}
+
+/// Oracle for one faulted execution against the fault-free facts (u, n, p).
+fn judge(fault: &Fault, e: &Exec, u: &Outcome<Res>, n: u64, p: usize, st: &mut CaseStats) -> Option<Found> {
+    let f = Some(fault.clone());
+    let Some(rs) = e.stats else {
+        return found("no-run-recorded", format!("fault {:?}: the search did not reach vm::run", fault), f);
+    };
+    match fault {
+        Fault::Ble(k) | Fault::Builder(k) => {
+            let k = *k as u64;
+            match &e.out {
+                Outcome::Panic(m) if m != ABORT_PAYLOAD => {
+                    return found("abort-panic", format!("limit {} made the search panic: {}", k, m), f)
+                }
+                Outcome::Err(ErrKind::BacktrackLimit) => {
+                    if matches!(fault, Fault::Ble(_)) {
+                        st.ble_fired += 1
+                    } else {
+                        st.builder_fired += 1
+                    }
+                    // legitimacy: the limit must really have been exceeded, by the hook's own count
+                    if rs.backtracks != k + 1 {
+                        return found(
+                            "ble-illegitimate",
+                            format!("BacktrackLimitExceeded under limit {} after {} backtracks (hook count); must be exactly {}", k, rs.backtracks, k + 1),
+                            f,
+                        );
+                    }
+                    if k >= n {
+                        return found(
+                            "ble-not-transparent",
+                            format!("limit {} >= the {} backtracks the unlimited run needs, yet BacktrackLimitExceeded", k, n),
+                            f,
+                        );
+                    }
+                }
+                other => {
+                    if other != u {
+                        return found(
+                            "abort-wrong-answer",
+                            format!("under backtrack limit {} the search returned {} ; unlimited answer is {}", k, other.show(), u.show()),
+                            f,
+                        );
+                    }
+                    // bounded work: a run that honours limit k performs at most k+1 backtracks
+                    if rs.backtracks > k + 1 {
+                        return found(
+                            "ble-ignored",
+                            format!("limit {} but {} backtracks were performed", k, rs.backtracks),
+                            f,
+                        );
+                    }
+                }
+            }
+        }
+        Fault::So(d) => {
+            let d = *d;
+            match &e.out {
+                Outcome::Panic(m) if m != ABORT_PAYLOAD => {
+                    return found("abort-panic", format!("stack capacity {} made the search panic: {}", d, m), f)
+                }
+                Outcome::Err(ErrKind::StackOverflow) => {
+                    st.so_fired += 1;
+                    if rs.pushes_refused == 0 || rs.refused_at_depth != d {
+                        return found(
+                            "so-illegitimate",
+                            format!("StackOverflow under capacity {} but refused pushes = {}, refused at depth {}", d, rs.pushes_refused, rs.refused_at_depth),
+                            f,
+                        );
+                    }
+                    if d >= p {
+                        return found(
+                            "so-not-transparent",
+                            format!("capacity {} >= peak depth {} of the unlimited run, yet StackOverflow", d, p),
+                            f,
+                        );
+                    }
+                }
+                other => {
+                    if other != u {
+                        return found(
+                            "abort-wrong-answer",
+                            format!("under stack capacity {} the search returned {} ; unlimited answer is {}", d, other.show(), u.show()),
+                            f,
+                        );
+                    }
+                }
+            }
+            if rs.peak_depth > d {
+                return found(
+                    "so-capacity-exceeded",
+                    format!("capacity {} but the branch stack reached depth {}", d, rs.peak_depth),
+                    f,
+                );
+            }
+        }
+    }
+    None
+}
+
+fn sweep_points(n: usize, cap: usize, rng: &mut Rng, extra: usize) -> Vec<usize> {
+    if n <= cap {
+        (0..=n + 1).collect()
+    } else {
+        let mut v = vec![0, 1, 2, 3, 5, 10, 100, n - 1, n, n + 1];
+        for _ in 0..extra {
+            v.push(rng.below(n));
+        }
+        v.sort();
+        v.dedup();
+        v
+    }
+}
+
+/// Full check of one case: fault-free pass under the progress monitor, then the abort-point sweep.
+pub fn check_case(re: &Regex, case: &Case, cap: usize, with_builder: bool, rng: &mut Rng, st: &mut CaseStats) -> Option<Found> {
+    // 1. fault-free, default limits, progress monitor on
+    let base = exec(re, case, LimitOverride::default(), true);
+    st.runs += 1;
+    let mut dg = Fnv(st.digest ^ 0x1234);
+    dg.str(&base.out.show());
+    if let Some((class, detail)) = base.progress_violation {
+        return found(&class, detail, None);
+    }
+    let Some(rs) = base.stats else {
+        // delegated as a whole: no VM run, no limits apply
+        st.digest = dg.0;
+        return None;
+    };
+    st.insns += rs.insns;
+    st.backtracks += rs.backtracks;
+    dg.u64(rs.backtracks);
+    dg.u64(rs.peak_depth as u64);
+    dg.u64(rs.insns);
+    st.digest = dg.0;
+    match rs.end {
+        EndReason::Match => st.end_match += 1,
+        EndReason::NoMatch => st.end_nomatch += 1,
+        EndReason::BacktrackLimit => st.end_ble += 1,
+        EndReason::StackOverflow => st.end_so += 1,
+        EndReason::Running => {}
+    }
+    match &base.out {
+        Outcome::Panic(_) => {
+            // a panicking search is C05's business; nothing to sweep
+            st.panicked += 1;
+            return None;
+        }
+        Outcome::Err(ErrKind::BacktrackLimit) => {
+            // default limits hit without a repeated configuration: a genuinely heavy search.
+            // Legitimacy still applies.
+            st.heavy_default_limit_hit += 1;
+            if rs.backtracks != rs.backtrack_limit as u64 + 1 {
+                return found(
+                    "ble-illegitimate",
+                    format!("BacktrackLimitExceeded with default limit {} after {} backtracks (hook count)", rs.backtrack_limit, rs.backtracks),
+                    None,
+                );
+            }
+            return None;
+        }
+        Outcome::Err(ErrKind::StackOverflow) => {
+            st.heavy_default_limit_hit += 1;
+            if rs.pushes_refused == 0 || rs.refused_at_depth != rs.max_stack {
+                return found(
+                    "so-illegitimate",
+                    format!("StackOverflow with default capacity {} but refused at depth {}", rs.max_stack, rs.refused_at_depth),
+                    None,
+                );
+            }
+            return None;
+        }
+        Outcome::Err(ErrKind::Other(e)) => {
+            return found("unexpected-error", format!("search returned {}", e), None);
+        }
+        Outcome::Ok(_) => {}
+    }
+    if rs.backtrack_limit != DEFAULT_BACKTRACK_LIMIT {
+        return found(
+            "default-limit-changed",
+            format!("Regex::new gives backtrack limit {} (documented default {})", rs.backtrack_limit, DEFAULT_BACKTRACK_LIMIT),
+            None,
+        );
+    }
+    let u = base.out;
+    let n = rs.backtracks;
+    let p = rs.peak_depth;
+    if n >= 1 {
+        st.nontrivial = true;
+    }
+    // 2. abort-point sweep
+    for k in sweep_points(n as usize, cap, rng, 8) {
+        let f = Fault::Ble(k);
+        let e = exec(re, case, LimitOverride { backtrack_limit: Some(k), max_stack: None }, false);
+        st.runs += 1;
+        st.ble_configured += 1;
+        if k as u64 == n || k as u64 + 1 == n {
+            st.threshold_crossed += 1;
+        }
+        if let Some(rs) = e.stats {
+            st.insns += rs.insns;
+        }
+        let mut dg = Fnv(st.digest);
+        dg.str(&e.out.show());
+        st.digest = dg.0;
+        if let Some(v) = judge(&f, &e, &u, n, p, st) {
+            return Some(v);
+        }
+    }
+    for d in sweep_points(p, cap, rng, 8) {
+        let f = Fault::So(d);
+        let e = exec(re, case, LimitOverride { backtrack_limit: None, max_stack: Some(d) }, false);
+        st.runs += 1;
+        st.so_configured += 1;
+        if let Some(rs) = e.stats {
+            st.insns += rs.insns;
+        }
+        let mut dg = Fnv(st.digest);
+        dg.str(&e.out.show());
+        st.digest = dg.0;
+        if let Some(v) = judge(&f, &e, &u, n, p, st) {
+            return Some(v);
+        }
+    }
+    // 3. the same through the public builder path (costs a build; sampled)
+    if with_builder {
+        let mut ks = vec![0usize, 1, 2, 3, 5, 10, 100, 1_000_000];
+        if n > 0 {
+            ks.push(n as usize - 1);
+        }
+        ks.push(n as usize);
+        ks.sort();
+        ks.dedup();
+        for k in ks {
+            let Some(re2) = std::panic::catch_unwind(|| RegexBuilder::new(&case.pattern).backtrack_limit(k).build()).ok().and_then(|r| r.ok()) else {
+                continue;
+            };
+            let f = Fault::Builder(k);
+            let e = exec(&re2, case, LimitOverride::default(), false);
+            st.runs += 1;
+            st.builder_configured += 1;
+            if let Some(rs) = e.stats {
+                if rs.backtrack_limit != k {
+                    return found(
+                        "builder-limit-not-applied",
+                        format!("RegexBuilder::backtrack_limit({}) but the run used limit {}", k, rs.backtrack_limit),
+                        Some(f),
+                    );
+                }
+            }
+            if let Some(v) = judge(&f, &e, &u, n, p, st) {
+                return Some(v);
+            }
+        }
+    }
+    None
+}
+
+fn class_of(pattern: &str, text: &str, pos: usize, api: Api, fault: &Option<Fault>) -> Option<(String, String, Option<Fault>)> {
+    let re = compile(pattern)?;
+    if pos > text.len() || !text.is_char_boundary(pos) {
+        return None;
+    }
+    let case = Case { pattern: pattern.to_string(), text: text.to_string(), pos, api };
+    let mut st = CaseStats::default();
+    let mut rng = Rng::new(7);
+    let with_builder = matches!(fault, Some(Fault::Builder(_)));
+    check_case(&re, &case, 64, with_builder, &mut rng, &mut st).map(|f| (f.class, f.detail, f.fault))
+}
+
+fn minimise(case: &Case, ast: Option<&Node>, f: &Found) -> (Case, Found) {
+    let mut cur = case.clone();
+    let mut cur_found = Found { class: f.class.clone(), detail: f.detail.clone(), fault: f.fault.clone() };
+    let api = case.api;
+    // text first
+    loop {
+        let mut progressed = false;
+        for t in gen::text_shrinks(&cur.text) {
+            let pos = if cur.pos <= t.len() && t.is_char_boundary(cur.pos) { cur.pos } else { 0 };
+            if let Some((c, d, fl)) = class_of(&cur.pattern, &t, pos, api, &cur_found.fault) {
+                if c == f.class {
+                    cur.text = t;
+                    cur.pos = pos;
+                    cur_found = Found { class: c, detail: d, fault: fl };
+                    progressed = true;
+                    break;
+                }
+            }
+        }
+        if !progressed {
+            break;
+        }
+    }
+    if let Some(ast) = ast {
+        let text = cur.text.clone();
+        let pos = cur.pos;
+        let fault = cur_found.fault.clone();
+        let class = f.class.clone();
+        let small = minimise_ast(ast, &|p: &str| class_of(p, &text, pos, api, &fault).map_or(false, |(c, _, _)| c == class));
+        let p = small.render();
+        if let Some((c, d, fl)) = class_of(&p, &cur.text, cur.pos, api, &cur_found.fault) {
+            if c == f.class {
+                cur.pattern = p;
+                cur_found = Found { class: c, detail: d, fault: fl };
+            }
+        }
+    }
+    (cur, cur_found)
+}
+
+pub fn replay(case: &Value) -> Option<(String, String)> {
+    let pattern = case["pattern"].as_str()?;
+    let text = case["text"].as_str()?;
+    let pos = case["pos"].as_u64()? as usize;
+    let api = Api::parse(case["api"].as_str()?)?;
+    let fault = Fault::from_json(&case["fault"]);
+    class_of(pattern, text, pos, api, &fault).map(|(c, d, _)| (c, d))
+}
+
+fn gen_cfg(rng: &mut Rng) -> GenCfg {
+    let mut cfg = GenCfg::swarm(rng);
+    // conditionals are in scope for C07 (the epsilon-guard choice depends on their size facts)
+    cfg.allow_cond = rng.chance(3, 4);
+    cfg.allow_cond_in_atomic = true;
+    cfg.allow_keepout_in_look = true;
+    cfg
+}
+
+struct JobOut {
+    st: CaseStats,
+    cases: u64,
+    vm_cases: u64,
+    nontrivial_hashes: Vec<u64>,
+    sample: Option<Value>,
+}
+
+fn job(seed: u64, i: u64, cap: usize) -> (JobOut, Option<Violation>) {
+    let mut rng = Rng::new(derive(seed, i));
+    let mut out = JobOut { st: CaseStats::default(), cases: 0, vm_cases: 0, nontrivial_hashes: Vec::new(), sample: None };
+    let cfg = gen_cfg(&mut rng);
+    for k in 0..4 {
+        let (pattern, ast) = if k == 0 && i % 2 == 0 {
+            (gen::CORPUS[((i / 2) as usize) % gen::CORPUS.len()].to_string(), None)
+        } else {
+            let ast = gen::gen_pattern(&mut rng, &cfg);
+            (ast.render(), Some(ast))
+        };
+        let Some(re) = compile(&pattern) else { continue };
+        if !re.verif_is_fancy() {
+            // no VM, no limits: one cheap case to confirm that, then move on
+            out.cases += 1;
+            continue;
+        }
+        for _ in 0..3 {
+            let text = gen::gen_text(&mut rng, 8);
+            let api = match rng.below(6) {
+                0 => Api::Find,
+                1 => Api::IsMatch,
+                _ => Api::Captures,
+            };
+            let pos = if api == Api::IsMatch || rng.chance(2, 3) { 0 } else { *rng.pick(&gen::boundaries(&text)) };
+            let case = Case { pattern: pattern.clone(), text, pos, api };
+            let with_builder = rng.chance(1, 8);
+            let mut st = CaseStats { digest: out.st.digest, ..CaseStats::default() };
+            let f = check_case(&re, &case, cap, with_builder, &mut rng, &mut st);
+            out.cases += 1;
+            out.vm_cases += 1;
+            add_stats(&mut out.st, &st);
+            if st.nontrivial {
+                let mut h = Fnv::new();
+                h.str(&case.pattern);
+                h.str(&case.text);
+                h.u64(case.pos as u64);
+                out.nontrivial_hashes.push(h.0);
+                if out.sample.is_none() {
+                    out.sample = Some(json!({"pattern": case.pattern, "text": case.text, "pos": case.pos, "api": case.api.name(),
+                        "fault_free_backtracks": st.backtracks, "abort_points_swept": st.ble_configured + st.so_configured}));
+                }
+            }
+            if let Some(f) = f {
+                let (mc, mf) = minimise(&case, ast.as_ref(), &f);
+                let v = Violation::new(PROP, &mf.class, mf.detail.clone(), mc.to_json(&mf.fault));
+                return (out, Some(v));
+            }
+        }
+    }
+    (out, None)
+}
+
+fn add_stats(a: &mut CaseStats, b: &CaseStats) {
+    a.runs += b.runs;
+    a.insns += b.insns;
+    a.backtracks += b.backtracks;
+    a.ble_configured += b.ble_configured;
+    a.ble_fired += b.ble_fired;
+    a.so_configured += b.so_configured;
+    a.so_fired += b.so_fired;
+    a.builder_configured += b.builder_configured;
+    a.builder_fired += b.builder_fired;
+    a.threshold_crossed += b.threshold_crossed;
+    a.end_match += b.end_match;
+    a.end_nomatch += b.end_nomatch;
+    a.end_ble += b.end_ble;
+    a.end_so += b.end_so;
+    a.panicked += b.panicked;
+    a.heavy_default_limit_hit += b.heavy_default_limit_hit;
+    a.epsilon_guard_fired += b.epsilon_guard_fired;
+    a.digest = b.digest;
+}
+
+/// Event digests per run for the determinism self-test.
+pub fn digest(seed: u64, n: u64, workers: usize) -> Vec<u64> {
+    let (res, _) = run_batch(n, workers, move |i| {
+        let (o, v) = job(seed, i, 32);
+        let mut d = Fnv(o.st.digest);
+        d.u64(o.st.runs);
+        d.u64(v.is_some() as u64);
+        (d.0, None)
+    });
+    res.into_iter().map(|(_, d)| d).collect()
+}
+
+pub fn run(opts: &Opts) -> i32 {
+    let t0 = now();
+    let thorough = opts.tier == Tier::Thorough;
+    let n = if opts.budget > 0 { opts.budget } else if thorough { 4_000_000 } else { 40_000 };
+    let cap = if thorough { 256 } else { 64 };
+    let seed = opts.seed;
+    let (results, viol) = run_batch(n, opts.workers, move |i| job(seed, i, cap));
+    let mut st = CaseStats::default();
+    let mut cases = 0;
+    let mut vm_cases = 0;
+    let mut nt: HashSet<u64> = HashSet::new();
+    let mut samples = Vec::new();
+    for (_, r) in &results {
+        add_stats(&mut st, &r.st);
+        cases += r.cases;
+        vm_cases += r.vm_cases;
+        nt.extend(r.nontrivial_hashes.iter());
+        if samples.len() < 4 {
+            if let Some(s) = &r.sample {
+                samples.push(s.clone());
+            }
+        }
+    }
+    let wall = t0.elapsed().as_secs_f64();
+    let mut code = 0;
+    let mut violations = 0;
+    if let Some((i, v)) = &viol {
+        violations = 1;
+        let path = write_replay(v, derive(seed, *i));
+        let again = replay(&v.replay);
+        if again.as_ref().map(|(c, _)| c.as_str()) != Some(v.class.as_str()) {
+            eprintln!("harness error: C07 violation did not reproduce on replay: {:?} vs {}", again, v.class);
+            return 2;
+        }
+        report_violation(v, &path);
+        code = 1;
+    }
+    if samples.is_empty() {
+        samples.push(json!("no non-trivial case in this run"));
+    }
+    if opts.write_evidence {
+        let mut extra = serde_json::Map::new();
+        extra.insert("cases".into(), json!(cases));
+        extra.insert("cases_on_backtracking_vm".into(), json!(vm_cases));
+        extra.insert("faults".into(), json!({
+            "BLE@k_configured": st.ble_configured, "BLE@k_fired": st.ble_fired,
+            "SO@d_configured": st.so_configured, "SO@d_fired": st.so_fired,
+            "builder_limit_configured": st.builder_configured, "builder_limit_fired": st.builder_fired,
+            "configured_not_fired": (st.ble_configured - st.ble_fired) + (st.so_configured - st.so_fired) + (st.builder_configured - st.builder_fired),
+        }));
+        extra.insert("logical_time".into(), json!({"vm_instructions": st.insns, "fault_free_backtracks": st.backtracks,
+            "note": "no wall-clock exists in the system under test; simulated time is logical (VM instructions)"}));
+        extra.insert("probes".into(), json!({
+            "sweeps_crossing_exact_threshold": st.threshold_crossed,
+            "fault_free_end_match": st.end_match, "fault_free_end_nomatch": st.end_nomatch,
+            "fault_free_end_backtrack_limit": st.end_ble, "fault_free_end_stack_overflow": st.end_so,
+            "fault_free_default_limit_hit_without_repeated_configuration": st.heavy_default_limit_hit,
+            "fault_free_panicked_cases_skipped": st.panicked,
+        }));
+        extra.insert("runs_per_hour".into(), json!(((st.runs as f64) / wall.max(1e-9) * 3600.0) as u64));
+        extra.insert("seeds".into(), json!(format!("derive({}, 0..{})", seed, results.len())));
+        extra.insert("sweep_cap".into(), json!(cap));
+        extra.insert("real_vs_stub".into(), json!({
+            "real": ["fancy_regex public search API", "fancy_regex::vm::run", "regex-automata delegates", "RegexBuilder::backtrack_limit path (sampled)"],
+            "stubbed": ["limits overridden per run through the H2 hook (the shipped comparison lines execute)"],
+        }));
+        Evidence {
+            property: PROP.into(),
+            tier: opts.tier,
+            seed,
+            level: "fault_enumeration",
+            evaluations: st.runs,
+            distinct_nontrivial: nt.len() as u64,
+            rule: format!("cases = (pattern from corpus or seeded grammar, text <= 8 chars, char-boundary start, API); per case every backtrack limit 0..N+1 and stack capacity 0..P+1 is injected when N,P <= {} (else boundary values + 8 seeded samples), builder path on 1/8 of cases; non-trivial = fault-free run takes >= 1 backtrack (a fault can fire); distinct by hash of (pattern,text,pos)", cap),
+            samples,
+            extra,
+            assumptions: vec![
+                "the fault-free answer is taken as the 'answer of an unlimited run' (C01/C02 not decided here)".into(),
+                "hook counters are add-only lines next to the VM's own counters".into(),
+            ],
+            wall_s: wall,
+            violations,
+        }
+        .write();
+    }
+    println!(
+        "C07 {}: {} cases ({} on VM), {} executions, {} BLE + {} SO aborts fired, {} distinct non-trivial, {:.1}s",
+        opts.tier.name(), cases, vm_cases, st.runs, st.ble_fired + st.builder_fired, st.so_fired, nt.len(), wall
+    );
+    code
+}
